@@ -80,12 +80,85 @@ CTOR_RX = r"^darling_core::error::Error::(custom|duplicate_field|duplicate_field
 
 
 def opt_atom(name, val):
-    return r'is_ident\(.*, "%s"\)=%s' % (name, val)
+    # `path.is_ident("x")`, or the path's single identifier compared as a string
+    return r'(?:is_ident\(.*|PartialEq for str>::eq\(.*get_ident\(.*), "%s"\)=%s' % (name, val)
+
+
+OPT_TEST = re.compile(r'is_ident\(|PartialEq for str>::eq\(.*get_ident\(')
+
+
+class Ev(tuple):
+    """(blk, ctor, first-arg expr, spanned-with expr|None) plus .pcs = the conditions under which
+    the error is built (None: the path condition of blk)"""
+    pcs = None
+
+
+def ev_pcs(ctx, f, e):
+    return e.pcs if getattr(e, "pcs", None) is not None else ctx.pc_strs(f, e[0])
+
+
+def table_error_events(ctx, f):
+    """Errors built per row of a filtered table (`[(cond, msg), ..].iter().filter(|(c, _)| *c)
+    .for_each(|(_, m)| acc.push(Error::custom(m).with_span(item)))` or `.map(..)` into `extend`):
+    one event per row, under the row's own condition, with the row's operands in place of the
+    closure's element."""
+    from vlib import sym as S, resalg as RA
+    rows = ctx.filtered_table_rows(f)
+    if not rows:
+        return []
+    s_f, _ = ctx.sym(f)
+    out = []
+
+    def fold(e):
+        if not isinstance(e, tuple) or not e:
+            return e
+        e = tuple(fold(x) if isinstance(x, tuple) else x for x in e)
+        if e[0] == "field" and isinstance(e[1], tuple) and e[1][0] == "agg" and e[1][1] == "tuple" and str(e[2]).isdigit() and int(e[2]) < len(e[1][2]):
+            return e[1][2][int(e[2])]
+        return e
+
+    tuples = {}
+    for blk, i, st in f.stmts():
+        if st["k"] == "assign" and st["r"]["k"] == "aggregate" and st["r"]["agg"] == "tuple" and not st["p"]["proj"]:
+            tuples[st["p"]["local"]] = st
+    for blk, t in f.calls():
+        nm = mir.callee_of(t) or ""
+        if not ctx.ADAPTERS.search(nm) or nm.endswith("::filter") or len(t["args"]) < 2:
+            continue
+        if "Iterator::filter(" not in ctx.expr(f, t["args"][0]) and "Iterator>::filter(" not in ctx.expr(f, t["args"][0]):
+            continue
+        cl = S.strip_transparent(s_f.operand(t["args"][-1]))
+        if cl[0] != "closure":
+            continue
+        cb = RA._closure_body(f.crate, cl[1])
+        if cb is None:
+            continue
+        s_c = S.Sym(cb)
+        spans = [(S.strip_transparent(s_c.operand(t2["args"][0])), t2["args"][1]) for _, t2 in ctx.find_calls(cb, r"^darling_core::error::Error::with_span$")]
+        for b2, t2 in ctx.find_calls(cb, CTOR_RX):
+            me = S.strip_transparent(s_c._def_expr((b2, "term", "call", t2), 0))
+            sp_node = None
+            for a0, a1 in spans:
+                if RA._has_subterm(a0, me) or a0 == me:
+                    sp_node = a1
+            site = ctx.pc_strs(f, blk) or [set()]
+            for locs, dnf in rows:
+                tl = [l for l, st in tuples.items() if [(x.get("p") or {}).get("local") for x in st["r"]["ops"]] == locs]
+                if not tl:
+                    continue
+                row = S.strip_transparent(s_f.rvalue(tuples[tl[0]]["r"]))
+                sub = lambda e: S.strip_transparent(fold(RA._subst_closure(e, cl[2], [row])))
+                a0s = S.show(sub(S.strip_transparent(s_c.operand(t2["args"][0]))), s_f) if t2["args"] else ""
+                sps = S.show(sub(S.strip_transparent(s_c.operand(sp_node))), s_f) if sp_node is not None else None
+                ev = Ev((blk, nm and mir.callee_of(t2).rsplit("::", 1)[-1], a0s, sps))
+                ev.pcs = [set(d0) | set(d1) for d0 in site for d1 in dnf]
+                out.append(ev)
+    return out
 
 
 def errors_of(ctx, f):
     """(blk, ctor, first-arg expr, spanned-with expr|None) for every error construction in f."""
-    out = []
+    out = list(table_error_events(ctx, f))
     s, _ = ctx.sym(f)
     from vlib import tpl
     spans = [(blk, ctx.expr(f, t["args"][0]), ctx.expr(f, t["args"][1]), tpl.value_root(f, t["args"][0])) for blk, t in ctx.find_calls(f, r"^darling_core::error::Error::with_span$")]
@@ -153,7 +226,7 @@ def run(ctx):
         ft = FALLTHROUGH[chain]
         names = sorted(opts)
         if ft == "error":
-            unk = [e for e in errs if e[1].startswith("unknown_field") and all(all(("=False" in a) for a in d if "is_ident(" in a) and sum(1 for a in d if "is_ident(" in a) >= len(names) for d in pcs[e[0]])]
+            unk = [e for e in errs if e[1].startswith("unknown_field") and all(all(("=False" in a) for a in d if OPT_TEST.search(a)) and (sum(1 for a in d if OPT_TEST.search(a)) >= len(names) or any(re.search(r"^is_some\(.*get_ident\(.*\)=False$", a) for a in d)) for d in pcs[e[0]])]
             ctx.ob("C10.G.unknown-option-rejected", f.key, "name none of %s" % names, len(unk) == 1, "an unknown_field error must be built when every is_ident test fails")
             for e in unk:
                 ctx.ob("C10.G.error-spanned", f.key, "unknown option", e[3] is not None and "a2" in e[3], "with_span(%s)" % e[3])
@@ -163,7 +236,7 @@ def run(ctx):
             if ok:
                 blk, t = calls[0]
                 d = ctx.pc_strs(f, blk)
-                ok = all(all("=False" in a for a in x if "is_ident(" in a) and sum(1 for a in x if "is_ident(" in a) >= len(names) for x in d) and ctx.expr(f, t["args"][1]) == "a2"
+                ok = all(all("=False" in a for a in x if OPT_TEST.search(a)) and (sum(1 for a in x if OPT_TEST.search(a)) >= len(names) or any(re.search(r"^is_some\(.*get_ident\(.*\)=False$", a) for a in x)) for x in d) and ctx.expr(f, t["args"][1]) == "a2"
             ctx.ob("C10.G.unknown-option-delegated", f.key, "name none of %s" % names, ok, "must delegate the same item to %s" % ft.split(" as ")[0][1:])
     for chain, ft in FALLTHROUGH.items():
         if chain in CHAINS:
@@ -178,17 +251,21 @@ def run(ctx):
     if f:
         errs = errors_of(ctx, f)
         for name, set_atom in FLATTEN_CONFLICTS.items():
-            a = [e for e in errs if e[1] == "custom" and any(ctx._sat(d, opt_atom(name, "True")) and ctx._sat(d, r"is_some\(self\.flatten\.0\)=True") for d in ctx.pc_strs(f, e[0]))]
+            a = [e for e in errs if e[1] == "custom" and any(ctx._sat(d, opt_atom(name, "True")) and ctx._sat(d, r"is_some\(self\.flatten\.0\)=True") for d in ev_pcs(ctx, f, e))]
             alts_ = set_atom if isinstance(set_atom, list) else [[set_atom]]
-            b = [e for e in errs if e[1] == "custom" and any(ctx._sat(d, opt_atom("flatten", "True")) and any(all(ctx._sat(d, x) for x in alt_) for alt_ in alts_) for d in ctx.pc_strs(f, e[0]))]
+            b = [e for e in errs if e[1] == "custom" and any(ctx._sat(d, opt_atom("flatten", "True")) and any(all(ctx._sat(d, x) for x in alt_) for alt_ in alts_) for d in ev_pcs(ctx, f, e))]
             ctx.ob("C10.G.conflict-both-orders", f.key, "flatten x %s (in the `%s` branch)" % (name, name), len(a) == 1, "%d guarded errors" % len(a))
             ctx.ob("C10.G.conflict-both-orders", f.key, "flatten x %s (in the `flatten` branch)" % name, len(b) == 1, "%d guarded errors" % len(b))
             for e in a + b:
                 ctx.ob("C10.G.error-spanned", f.key, "flatten x %s" % name, e[3] == "a2", "with_span(%s)" % e[3])
         # flatten-branch conflicts are accumulated, not first-wins
-        acc = ctx.find_calls(f, r"^darling_core::error::Accumulator::push$")
+        # (four pushes, or one push / extend per row of a table of four conflicts)
+        acc = ctx.find_calls_deep(f, r"^darling_core::error::Accumulator::push$|Extend<darling_core::error::Error>>::extend$")
         fin = ctx.find_calls(f, r"^darling_core::error::Accumulator::finish$")
-        ctx.ob("C10.G.flatten-conflicts-accumulate", f.key, "conflicts.push x4, finish()?", len(acc) == 4 and len(fin) == 1, "%d pushes, %d finish" % (len(acc), len(fin)))
+        nb = len([e for e in errs if e[1] == "custom" and any(ctx._sat(d, opt_atom("flatten", "True")) for d in ev_pcs(ctx, f, e))])
+        tab = [e for e in errs if getattr(e, "pcs", None) is not None]
+        ok = len(fin) == 1 and nb == 4 and (len(acc) == 4 or (len(acc) == 1 and len(tab) == 4))
+        ctx.ob("C10.G.flatten-conflicts-accumulate", f.key, "conflicts.push x4, finish()?", ok, "%d recording calls for %d conflict errors (%d from a table), %d finish" % (len(acc), nb, len(tab), len(fin)))
     for chain in ("core::Core", "input_field::InputField"):
         f = ctx.fn(PN % chain)
         if f:
@@ -209,14 +286,26 @@ def run(ctx):
     vb = "<darling_core::options::%s as darling_core::options::ParseData>::validate_body"
     f = ctx.fn(vb % "core::Core")
     if f:
-        p = ctx.find_calls(f, r"Accumulator::push$")
+        # (the push may stand in a loop, in a for_each closure, or be mapped into `extend`)
+        p = [(o, [x for x, y in o.calls() if y is t_][0], t_) for _, t_, o in ctx.find_calls_deep(f, r"Accumulator::push$")]
+        ext = ctx.find_calls(f, r"Extend<darling_core::error::Error>>::extend$")
         ok = len(p) == 1
         if ok:
-            d = ctx.pc_strs(f, p[0][0])
-            ok = all(ctx._sat(x, r"Gt\(len\(.*\), 1_usize\)=True") for x in d)
+            d = ctx.pc_strs(p[0][0], p[0][1])
+            ok = bool(d) and all(ctx._sat(x, r"Gt\(len\(.*\), 1_usize\)=True") for x in d)
+        elif not p and len(ext) == 1:
+            d = ctx.pc_strs(f, ext[0][0])
+            ok = bool(d) and all(ctx._sat(x, r"Gt\(len\(.*\), 1_usize\)=True") for x in d)
         ctx.ob("C10.G.single-flatten", f.key, "more than one flatten field", ok, "one error per flatten field under len > 1")
-        if p:
-            e = ctx.expr(f, p[0][1]["args"][1])
+        if p or ext:
+            if p:
+                e = ctx.expr(p[0][0], p[0][2]["args"][1])
+            else:
+                # the errors handed to extend: built by the closure of the map in front of it
+                e = ""
+                for c in ctx._closures_deep(f):
+                    for _, t_ in ctx.find_calls(c, r"^darling_core::error::Error::with_span$"):
+                        e = ctx.expr(c, {"k": "copy", "p": t_["dest"]}) if False else "darling_core::error::Error::with_span(" + ctx.expr(c, t_["args"][0]) + ", " + ctx.expr(c, t_["args"][1]) + ")"
             ctx.ob("C10.G.error-spanned", f.key, "flatten", e.startswith("darling_core::error::Error::with_span(") and "Flag::span(" in e, e[:160])
     f = ctx.fn(vb % "from_meta::FromMetaOptions")
     if f:
